@@ -331,6 +331,19 @@ func genC19(r *rng, tier string, emit func(string)) {
 			emit(fmt.Sprintf("p7rt8 %s %s %s %s %s", hx(r.bytes(24)), hx(r.bytes(8)), hx(data), r.script(l, 5), r.script(l, 5)))
 		}
 	}
+	// sources that make progress slowly: hundreds of empty reads in all, never two in a row - each (0, nil) is
+	// followed by 1..3 bytes (an io.Reader may return 0, nil; only a reader that NEVER makes progress is broken)
+	for i := 0; i < 3; i++ {
+		l := 130 + r.intn(120)
+		var sc []string
+		for j := 0; j < 2*l; j++ {
+			sc = append(sc, "0", strconv.Itoa(1+r.intn(3)))
+		}
+		slow := strings.Join(sc, ",")
+		data := r.bytes(l)
+		emit(fmt.Sprintf("p7stream %s %s %s %s %s", hx(r.block16()), hx(r.block16()), hx(data), slow, slow))
+		emit(fmt.Sprintf("p7rt8 %s %s %s %s %s", hx(r.bytes(24)), hx(r.bytes(8)), hx(data), "-", slow))
+	}
 }
 
 // c19Poison: decryptions that fail (bad final pad, a trailing partial block after more than one buffer-full), run
